@@ -50,6 +50,11 @@ def main(argv=None):
     ap.add_argument("--no-evidence", action="store_true")
     ap.add_argument("--trace", action="store_true", help="with --replay: print the event log")
     a = ap.parse_args(argv)
+    if "PYTHONHASHSEED" not in os.environ and argv is None:
+        # a known, seed-derived string-hash seed for this process tree (reference interpreters get other ones)
+        base = a.seed if a.seed is not None else int(os.environ.get("VERIF_SEED", DEFAULT_SEED[a.tier]))
+        os.environ["PYTHONHASHSEED"] = str(base % 4294967291 + 1)
+        os.execv(sys.executable, [sys.executable, "-m", "simhost.check"] + sys.argv[1:])
 
     if a.target.startswith("selftest"):
         from . import selftest
